@@ -1,0 +1,56 @@
+//go:build verif
+// +build verif
+
+package rtree
+
+import "github.com/ctessum/geom"
+
+// This file is only compiled with the "verif" build tag. It exposes a
+// read-only snapshot of the node structure so that an external checker can
+// evaluate the balance / envelope / fan-out invariants after every operation.
+// It has no call sites in the package and does not modify the tree.
+
+// VerifNode is a read-only copy of one tree node.
+type VerifNode struct {
+	Leaf    bool
+	Level   int
+	Entries []VerifEntry
+	// BadParent counts children of this node whose parent pointer is not this node.
+	BadParent int
+}
+
+// VerifEntry is a read-only copy of one node entry.
+type VerifEntry struct {
+	BB    *geom.Bounds // nil if the entry has no box
+	Child *VerifNode   // nil for leaf entries (and for a missing child)
+	Obj   geom.Geom
+}
+
+// VerifSnapshot returns a deep copy of the tree structure together with the
+// tree's height and size fields. maxDepth bounds the recursion so that a
+// corrupted (cyclic) structure cannot hang the caller.
+func (tree *Rtree) VerifSnapshot(maxDepth int) (root *VerifNode, height, size int) {
+	return verifCopy(tree.root, maxDepth), tree.height, tree.size
+}
+
+func verifCopy(n *node, depth int) *VerifNode {
+	if n == nil || depth <= 0 {
+		return nil
+	}
+	v := &VerifNode{Leaf: n.leaf, Level: n.level, Entries: make([]VerifEntry, len(n.entries))}
+	for i, e := range n.entries {
+		ve := VerifEntry{Obj: e.obj}
+		if e.bb != nil {
+			b := *e.bb
+			ve.BB = &b
+		}
+		if e.child != nil {
+			ve.Child = verifCopy(e.child, depth-1)
+			if e.child.parent != n {
+				v.BadParent++
+			}
+		}
+		v.Entries[i] = ve
+	}
+	return v
+}
